@@ -21,8 +21,15 @@ Section Spec.
   Definition RecentZero : Prop :=
     exists l b, last_commit = Some l /\ In b brokers /\ b <= co_offset l.
 
-  (* the first backward step p -> c, and nothing from c onwards got back to p's offset *)
+  (* some backward step p -> c, and nothing from c onwards got back to p's offset *)
   Definition RewoundUnrecovered : Prop :=
+    exists pre p c post,
+      offs = pre ++ p :: c :: post /\
+      co_offset c < co_offset p /\
+      Forall (fun o => co_offset o < co_offset p) (c :: post).
+
+  (* what the code looked at before the repair: only the FIRST backward step of the window *)
+  Definition RewoundUnrecoveredFirst : Prop :=
     exists pre p c post,
       offs = pre ++ p :: c :: post /\
       Sorted (fun a b => co_offset a <= co_offset b) (pre ++ [p]) /\
@@ -61,6 +68,20 @@ Definition ts_bound : Z := 2305843009213693952.   (* 2^61 *)
 Definition now_bound : Z := 2251799813685248.      (* 2^51 *)
 Definition no_overflow (offs : list coff) (now : Z) : Prop :=
   - now_bound < now < now_bound /\ Forall (fun o => - ts_bound < co_ts o < ts_bound) offs.
+
+(* The sharp guard: exactly the three int64 operations of the stop rule (checkIfOffsetsStopped) do not wrap. *)
+Definition no_wrap (offs : list coff) (now : Z) : Prop :=
+  match offs with
+  | [] => True
+  | f :: _ => in_i64 (now * 1000) /\ in_i64 (co_ts (last offs f) - co_ts f) /\ in_i64 (now * 1000 - co_ts (last offs f))
+  end.
+
+(* What the evaluator is handed in a running Burrow: int64 commit timestamps that are not negative (storage admits a commit
+   only if its timestamp is at least (clock - expire-group) * 1000, and the clock is past expire-group) and a clock whose
+   millisecond value fits an int64. *)
+Definition clock_max : Z := 9223372036854775.      (* (2^63 - 1) / 1000 *)
+Definition storage_guard (offs : list coff) (now : Z) : Prop :=
+  0 <= now <= clock_max /\ Forall (fun o => 0 <= co_ts o < two63) offs.
 
 Definition shift_offsets (k : Z) (offs : list coff) : list coff :=
   map (fun o => mkCoff (co_offset o + k) (co_order o) (co_ts o) (co_lag o)) offs.
